@@ -37,7 +37,7 @@ ASSUMPTIONS = [
   "not generated (legal but left out): payload lines consisting of white space only, timestamps inside ruby, region: cue settings, the header line followed by further header lines, missing space around -->",
   "span ends are not asserted (a timestamp span needs no end); the P elements are taken in document order whatever div structure holds them",
   "ruby: the n-th <rt> annotates the n-th base; a base without <rt> is generated only in last position",
-  "writer_roundtrip (reading the WebVTT writer's own output) is not part of this module yet: it needs the strict cue parser vt/cueparse.py (TODO hook at the end of this file)",
+  "writer_roundtrip: what was written is what the strict parser vt/cueparse.py reads from the writer's string; lines without visible characters and line-edge spaces are ignored; background rgba(0,0,0,204) / transparent count as no background",
 ]
 
 SP = styles.StyleProperties
@@ -577,7 +577,89 @@ PARTS = {
   "odd_ids": Part("odd_ids", check, strategy=cases(ODD_IDS), n=(80, 8000), shrinker=SHRINK, required_labels=("cue:identifier-like-block-keyword",)),
 }
 
-# TODO(writer_roundtrip): part "writer_roundtrip" - for the documents of C06 under the 8 writer configurations, parse the
-# writer's string with the strict cue parser (vt/cueparse.py parse_vtt) and require that to_model() of the same string
-# returns the same cues (times, lines, per-character runs).  Hook: add PARTS["writer_roundtrip"] = Part(..., check_roundtrip,
-# strategy=lambda tier: gen_model.docspecs(...)) once the parser and the C06 document profile are available.
+def check_roundtrip(case, res):
+  """reading the WebVTT writer's own output returns the cues that were written: the writer's string is read by the strict parser of
+  vt/cueparse.py (what was written) and by the WebVTT reader (what is returned); times, lines and per-character styles must agree"""
+  import io
+  from vt import gen_model as _gm, cueparse as _cp
+  from vt.props import c06 as _c06
+  import ttconv.vtt.writer as _w
+  import ttconv.vtt.reader as _r
+  doc = _gm.build(case["spec"])
+  try:
+    out = _w.from_model(doc, _c06.vtt_cfg(case["cfg"]))
+    cues, css = _cp.parse_vtt(out)
+  except Exception:  # pylint: disable=broad-except
+    res.label("writer-output-unusable")          # whether the writer may fail or write bad grammar is C07's business
+    return
+  res.label("cfg:" + case["cfg"])
+  try:
+    doc2 = _r.to_model(io.StringIO(out))
+  except Exception as e:  # pylint: disable=broad-except
+    res.crash(e, "roundtrip:")
+    return
+  if doc2 is None:
+    res.fail("roundtrip:reader-returned-none", repr(out[:200]))
+    return
+  ps = []
+  body = doc2.get_body()
+  if body is not None:
+    for div in body:
+      ps.extend(c for c in div if isinstance(c, model.P))
+  if len(ps) != len(cues):
+    res.fail("roundtrip:cue-count", "writer wrote %d cues, reader returned %d paragraphs: %r" % (len(cues), len(ps), out[:300]))
+    return
+  for c, p in zip(cues, ps):
+    b, e = p.get_begin(), p.get_end()
+    if isinstance(b, float) or isinstance(e, float):
+      res.fail("roundtrip:time-type:float", "%r %r" % (b, e))
+    if Fraction(b or 0) != c.begin or e is None or Fraction(e) != c.end:
+      res.fail("roundtrip:time-value", "written %s --> %s, read %s --> %s" % (c.begin, c.end, b, e))
+    o = observe_p(p)
+    got = [(ch, a) for ch, a in o["stream"]]
+    want = []
+    for i, (l, sts) in enumerate(zip(c.lines, c.styles)):
+      if i:
+        want.append(("\n", None))
+      want.extend(zip(l, sts))
+    gtext = "".join(ch for ch, _ in got)
+    wtext = "".join(ch for ch, _ in want)
+    norm = lambda t: "\n".join(x.strip(" ") for x in t.split("\n") if x.strip() != "")
+    if norm(gtext) != norm(wtext):
+      res.fail("roundtrip:text", "written %r read %r" % (wtext, gtext))
+      continue
+    gs = [(ch, a) for ch, a in got if not ch.isspace()]
+    ws = [(ch, a) for ch, a in want if not ch.isspace()]
+    for (ch, a), (_c2, w_) in zip(gs, ws):
+      # the reader skips STYLE blocks (as the property says): only the default WebVTT colour classes carry a colour for it
+      wfg = _cp.vtt_class_color(w_["color"], {}, "color") if w_["color"] else None
+      wbg = _cp.vtt_class_color(w_["bg"], {}, "background-color") if w_["bg"] else None
+      custom_fg = bool(w_["color"]) and wfg is None
+      custom_bg = bool(w_["bg"]) and wbg is None
+      hexof = lambda t: None if t is None else "#%02x%02x%02x%02x" % tuple(t)
+      gfg, gbg = hexof(a["fg"]), hexof(a["bg"])
+      if gbg in ("#00000000", "#000000cc"):
+        gbg = None
+      if gfg == "#ffffffff":
+        gfg = None
+      if wfg == "#ffffffff":
+        wfg = None
+      pairs = (("bold", a["b"], w_["bold"]), ("italic", a["i"], w_["italic"]), ("underline", a["u"], w_["underline"]),
+               ("colour", None if custom_fg else gfg, wfg), ("background", None if custom_bg else gbg, wbg))
+      bad = [n for n, x, y in pairs if x != y]
+      if bad:
+        res.fail("roundtrip:style:" + bad[0], "char %r written %r read %r in %r" % (ch, [y for _n, _x, y in pairs], [x for _n, x, _y in pairs], c.raw_lines))
+        break
+  res.nontrivial = len(cues) >= 2 and any(len(c.lines) >= 2 for c in cues)
+
+
+def roundtrip_cases(tier):
+  from vt import gen_model as _gm
+  from vt.props import c06 as _c06, c07 as _c07
+  from hypothesis import strategies as st
+  return st.builds(lambda spec, mode, cfg: {"spec": _c06.shape(spec, mode), "cfg": cfg}, _gm.docspecs(_c07.STYLED),
+                   st.sampled_from([0, 1, 2]), st.sampled_from(_c06.VTT_NAMES))
+
+
+PARTS["writer_roundtrip"] = Part("writer_roundtrip", check_roundtrip, strategy=roundtrip_cases, n=(640, 48000),
+                                 required_labels=("cfg:vtt-L-A-I", "cfg:vtt-l-a-i"))
